@@ -799,5 +799,8 @@ class Extension(object):
     def builtin_len(self, E, ex, a, n, path):
         return None
 
+    def subscript(self, E, ex, base, idx, path, node):
+        return None
+
     def param_value(self, E, ex, name, ty, heap, pc):
         return None
